@@ -175,6 +175,16 @@ def run(ctx):
         cols = rl.columns_in(flt.test)
         shape = isinstance(flt.test, ast.Compare) and isinstance(flt.test.ops[0], ast.In) \
             and norm(flt.test.comparators[0]) == 'ignore_residues'
+        # the configured names are white-space separated words of the parameter
+        # file: a padded column field (' NA', 'CL ') never equals one of them
+        left = flt.test.left if isinstance(flt.test, ast.Compare) else None
+        stripped = isinstance(left, ast.Call) and isinstance(left.func, ast.Attribute) \
+            and left.func.attr == 'strip' and not left.args and rl.slice_of(left.func.value) == (17, 20)
+        ctx.ob('C07.R3', 'ignore-filter:compares-unpadded-name', shape and stripped,
+               'the residue-name columns are compared without their padding (%s): the names in '
+               'ignore_residues are words of the parameter file, so a one- or two-letter residue '
+               '(NA, CL, K) in its padded three columns would never be found ignorable'
+               % (norm(left) if left is not None else '?'), rl.mod, flt)
         ctx.ob('C07.R3', 'ignore-filter:reads-resname-only', cols == ['resname'] and shape,
                'the filter skips a record iff its residue-name columns are in ignore_residues '
                '(columns %s)' % cols, rl.mod, flt)
@@ -330,5 +340,8 @@ def run(ctx):
            and bool(ap),
            'hydrogens are created only by trigonal/tetrahedral (callers %s)' % sorted(set(ap)),
            pr, pr.func('Protonate.add_proton'))
+    # --protonate-all removes the hydrogens that --keep-protons kept before it
+    # rebuilds them: they have to leave the bond lists too (rule shared with C11.L1)
+    common.check_bond_writers(ctx, 'C07.R5', prog)
     ctx.assume('equality of eagerly (--protonate-all) and lazily built hydrogens, and the '
                '--keep-protons round trip, are not decided (construction order can matter)')
